@@ -1,16 +1,26 @@
 (** C49 — small-step concurrent model of simgrid::xbt::Parmap (src/xbt/parmap.hpp).  Model only.
     Threads: the master (caller of apply(), worker 0) and [length ws] worker threads.  Shared variables:
     common_index [ci], thread_counter [tc], work_round [wr], the data length [len].  Every step is one access to a
-    shared variable (fetch_add, store, load in a wait loop) or one application of the user function; a schedule is
-    any list of thread numbers (0 = master, k+1 = worker k); scheduling a thread whose wait condition is false changes
-    nothing (futex / condition variable / busy waiting all reduce to "proceed only when the condition holds").
-    Atomics are sequentially consistent: relaxed-memory reorderings and lost futex wake-ups are not modelled. *)
+    shared variable (fetch_add, store, load in a wait loop), one application of the user function, or the return of a
+    blocking wait.  A schedule is any list of events [Step t] / [Spurious t] (t = 0: master, k+1: worker k).
+
+    Waiting (master_wait, worker_wait) is NOT an atomic await: as in the source it is
+        x = load(var); while (!cond(x)) { block(var, x); x = load(var); }
+    [MWait]/[WWait] is the load + test, [MBlock x]/[WBlock x] is the thread inside futex_wait(var, x) (or inside
+    condition_variable::wait, or between two polls of the busy-wait loop).  [Step t] on a blocked thread makes the wait
+    return only if var <> x (FUTEX_WAIT returns EAGAIN at once when the value already differs, and a FUTEX_WAKE is only
+    ever issued after the variable changed); [Spurious t] makes the wait return unconditionally, at any time (EINTR
+    when a signal handler ran in the thread, spurious wake-ups of condition variables, a poll of the busy-wait loop).
+    What happens when the wait returns is the code under study, so it is a parameter [variant]: [as_written] goes back
+    to the load + test (the `while` loops of parmap.hpp); [m_loop := false] / [w_loop := false] describe a single
+    non-rechecked wait (`if (!cond) block();`), kept only to show that the theorems are sensitive to it.
+    Atomics are sequentially consistent: relaxed-memory reorderings and lost futex wake-ups (liveness) are not modelled. *)
 From SGV Require Import Base.Tactics.
 
 (* worker_main: round++ ; worker_wait(round) ; work() = { fetch_add ; test/apply }* ; worker_signal *)
-Inductive wpc_t := WStart | WWait | WFetch | WGot (i : nat) | WSignal.
+Inductive wpc_t := WStart | WWait | WBlock (r : nat) | WFetch | WGot (i : nat) | WSignal.
 (* apply(): common_index = 0 ; thread_counter = 1 ; work_round++ ; work() ; master_wait *)
-Inductive mpc_t := MIdle | M1 | M2 | MFetch | MGot (i : nat) | MWait.
+Inductive mpc_t := MIdle | M1 | M2 | MFetch | MGot (i : nat) | MWait | MBlock (c : nat).
 
 Record worker := mkW { wpc : wpc_t; wround : nat }.
 Record state := mkS {
@@ -22,7 +32,23 @@ Record state := mkS {
 
 Definition upd (k : nat) (w : worker) (l : list worker) : list worker := firstn k l ++ w :: skipn (S k) l.
 
-Definition step_master (s : state) : state :=
+(* the code run when a blocking wait returns: loop back to the test (parmap.hpp) or carry on without re-checking *)
+Record variant := mkV { m_loop : bool; w_loop : bool }.
+Definition as_written : variant := mkV true true.
+
+Definition set_mpc (s : state) (p : mpc_t) : state :=
+  mkS (ci s) (tc s) (wr s) (len s) p (ws s) (applied s) (done s) (todo s).
+(* apply() returns: what was processed so far is what the caller observes *)
+Definition master_return (s : state) : state :=
+  mkS (ci s) (tc s) (wr s) (len s) MIdle (ws s) [] ((len s, applied s) :: done s) (todo s).
+(* futex_wait(&thread_counter, c) / done_cond.wait / yield returns in the master *)
+Definition wake_master (v : variant) (s : state) : state :=
+  match mpc s with
+  | MBlock _ => if m_loop v then set_mpc s MWait else master_return s
+  | _ => s
+  end.
+
+Definition step_master (v : variant) (s : state) : state :=
   match mpc s with
   | MIdle =>
       match todo s with
@@ -36,24 +62,39 @@ Definition step_master (s : state) : state :=
       if Nat.ltb i (len s)
       then mkS (ci s) (tc s) (wr s) (len s) MFetch (ws s) (i :: applied s) (done s) (todo s)
       else mkS (ci s) (tc s) (wr s) (len s) MWait (ws s) (applied s) (done s) (todo s)
-  | MWait =>                                                   (* master_wait: thread_counter >= num_workers *)
-      if Nat.leb (S (length (ws s))) (tc s)
-      then mkS (ci s) (tc s) (wr s) (len s) MIdle (ws s) [] ((len s, applied s) :: done s) (todo s)
-      else s
+  | MWait =>                                  (* master_wait: count = thread_counter.load(); count < num_workers ? *)
+      if Nat.leb (S (length (ws s))) (tc s) then master_return s else set_mpc s (MBlock (tc s))
+  | MBlock c =>                                              (* inside futex_wait(&thread_counter, c) *)
+      if Nat.eqb (tc s) c then s else wake_master v s
   end.
 
-Definition step_worker (s : state) (k : nat) : state :=
+Definition set_w (s : state) (k : nat) (w : worker) : state :=
+  mkS (ci s) (tc s) (wr s) (len s) (mpc s) (upd k w (ws s)) (applied s) (done s) (todo s).
+(* futex_wait(&work_round, r) / ready_cond.wait / yield returns in worker k *)
+Definition wake_worker (v : variant) (s : state) (k : nat) : state :=
+  match nth_error (ws s) k with
+  | None => s
+  | Some w =>
+      match wpc w with
+      | WBlock _ => set_w s k (mkW (if w_loop v then WWait else WFetch) (wround w))
+      | _ => s
+      end
+  end.
+
+Definition step_worker (v : variant) (s : state) (k : nat) : state :=
   match nth_error (ws s) k with
   | None => s
   | Some w =>
       match wpc w with
       | WStart => mkS (ci s) (tc s) (wr s) (len s) (mpc s) (upd k (mkW WWait (S (wround w))) (ws s))
                       (applied s) (done s) (todo s)
-      | WWait =>                                                (* worker_wait: work_round == round *)
+      | WWait =>                                 (* worker_wait: round = work_round.load(); round != expected ? *)
           if Nat.eqb (wr s) (wround w)
           then mkS (ci s) (tc s) (wr s) (len s) (mpc s) (upd k (mkW WFetch (wround w)) (ws s))
                    (applied s) (done s) (todo s)
-          else s
+          else set_w s k (mkW (WBlock (wr s)) (wround w))
+      | WBlock r =>                                             (* inside futex_wait(&work_round, r) *)
+          if Nat.eqb (wr s) r then s else wake_worker v s k
       | WFetch => mkS (S (ci s)) (tc s) (wr s) (len s) (mpc s) (upd k (mkW (WGot (ci s)) (wround w)) (ws s))
                       (applied s) (done s) (todo s)
       | WGot i =>
@@ -67,9 +108,17 @@ Definition step_worker (s : state) (k : nat) : state :=
       end
   end.
 
-Definition step (s : state) (t : nat) : state :=
-  match t with O => step_master s | S k => step_worker s k end.
-Definition run (sched : list nat) (s : state) : state := fold_left step sched s.
+(* scheduler events: thread t executes its next atomic step / the blocking wait of thread t returns spuriously *)
+Inductive ev := Step (t : nat) | Spurious (t : nat).
+Definition step (v : variant) (s : state) (e : ev) : state :=
+  match e with
+  | Step O => step_master v s
+  | Step (S k) => step_worker v s k
+  | Spurious O => wake_master v s
+  | Spurious (S k) => wake_worker v s k
+  end.
+Definition run_v (v : variant) (sched : list ev) (s : state) : state := fold_left (step v) sched s.
+Definition run : list ev -> state -> state := run_v as_written.
 
 (* Parmap(num_workers, mode): num_workers - 1 threads are created, each starts worker_main with round = 0 *)
 Definition init (num_workers : nat) (applies : list nat) : state :=
@@ -81,8 +130,8 @@ Definition counts (n : nat) (log : list nat) : list nat :=
 (* the oracle: every element exactly once *)
 Definition each_once (cnt : list nat) : bool := forallb (Nat.eqb 1) cnt.
 
-(** executable entry point: num_workers nrounds n1..nk sched..  (thread numbers; the schedule is followed by
-    round-robin steps until every apply() has returned or the fuel is spent).
+(** executable entry point: num_workers nrounds n1..nk sched..  (t >= 0: Step t, t < 0: Spurious (-t-1); the schedule
+    is followed by round-robin steps until every apply() has returned or the fuel is spent).
     Output: number of completed apply() calls, then for each (oldest first) n followed by the n counters. *)
 Fixpoint round_robin (fuel : nat) (nthreads : nat) (t : nat) (s : state) : state :=
   match fuel with
@@ -90,9 +139,11 @@ Fixpoint round_robin (fuel : nat) (nthreads : nat) (t : nat) (s : state) : state
   | S f =>
       match mpc s, todo s with
       | MIdle, [] => s
-      | _, _ => round_robin f nthreads (if Nat.eqb (S t) nthreads then 0 else S t) (step s t)
+      | _, _ => round_robin f nthreads (if Nat.eqb (S t) nthreads then 0 else S t) (step as_written s (Step t))
       end
   end.
+
+Definition ev_of_Z (z : Z) : ev := if Z.ltb z 0 then Spurious (Z.to_nat (- z - 1)) else Step (Z.to_nat z).
 
 Definition run_c49 (l : list Z) : list Z :=
   match l with
@@ -100,8 +151,8 @@ Definition run_c49 (l : list Z) : list Z :=
       let '(ns, sched) := take_n (Z.to_nat nr) r in
       let applies := map Z.to_nat ns in
       let s0 := init (Z.to_nat nw) applies in
-      let s1 := run (map Z.to_nat sched) s0 in
-      let fuel := (Z.to_nat nw * (4 * fold_left Nat.add applies 0 + 40 * (length applies + 1) + 40))%nat in
+      let s1 := run (map ev_of_Z sched) s0 in
+      let fuel := (Z.to_nat nw * (4 * fold_left Nat.add applies 0 + (40 + 6 * Z.to_nat nw) * (length applies + 1) + 40))%nat in
       let s2 := round_robin fuel (Z.to_nat nw) 0 s1 in
       Z.of_nat (length (done s2)) ::
       flat_map (fun d => Z.of_nat (fst d) :: map Z.of_nat (counts (fst d) (snd d))) (rev (done s2))
